@@ -886,6 +886,10 @@ func litSuffix(c *Ctx, fn ast.Node) string {
 // literal to the expression at the call site (a parameter is replaced by the
 // argument passed for it; anything else is returned unchanged).
 func (c *Ctx) ctorLiteral(info *types.Info, call *ast.CallExpr) (*ast.CompositeLit, func(ast.Expr) ast.Expr) {
+	return ctorLiteralOf(info, call)
+}
+
+func ctorLiteralOf(info *types.Info, call *ast.CallExpr) (*ast.CompositeLit, func(ast.Expr) ast.Expr) {
 	cal := Callee(info, call)
 	if cal == nil || cal.Pkg() == nil {
 		return nil, nil
